@@ -1,4 +1,5 @@
 #include "c_dateutils.h"
+#include <limits.h>
 
 
 
@@ -53,6 +54,9 @@ int c_dateutils_add1month(int * date)
     else
     {
         /* change year */
+        if(date[0] == INT_MAX)
+            return DATEUTILS_ERROR + __LINE__;
+
         date[1] = 1;
         date[0] += 1;
     }
@@ -94,6 +98,9 @@ int c_dateutils_add1day(int * date)
         else
         {
             /* change year */
+            if(date[0] == INT_MAX)
+                return DATEUTILS_ERROR + __LINE__;
+
             date[1] = 1;
             date[0] += 1;
             return 0;
